@@ -13,5 +13,8 @@ func checkC10(c *Ctx, p *Prog, r *Result) {
 		e.survey()
 	}
 	e.g1(r, "C10")
+	f := NewFlow(p, e3Rules(p), e.roots, nil)
+	e.g2(r, "C10", f)
+	e.g3(r, "C10", f, c.Repo)
 	_ = ssa.Function{}
 }
